@@ -34,6 +34,10 @@ type Analysis struct {
 	Notes    []string  `json:"notes"`
 	Funcs    int       `json:"funcs"`
 	Enc      *Encoded  `json:"encoded"`
+	// stores to an object after its pointer was sent on a channel (see sent.go)
+	SentThenWritten []SentWrite `json:"sentThenWritten"`
+	// functions that send a parameter on a channel (directly or through a callee): parameter names
+	SendSummary map[string][]string `json:"sendSummary"`
 }
 
 var fileCache = map[string][]string{}
